@@ -958,6 +958,10 @@ func UnmarshalEnumValues(flags bool, value *yaml.Node) (*EnumValues, error) {
 			}
 			var integerValue big.Int
 			if flags {
+				if i >= 64 {
+					// no base type has more than 64 bits (and the i-th value takes i bits to represent)
+					return nil, parseError(v, "a flags type cannot have more than 64 values")
+				}
 				integerValue.SetBit(&integerValue, i, 1)
 			} else {
 				integerValue.SetInt64(int64(i))
@@ -1003,6 +1007,9 @@ func UnmarshalEnumValues(flags bool, value *yaml.Node) (*EnumValues, error) {
 						}
 						newVal := big.NewInt(1)
 						for ; newVal.Cmp(&prevVal) <= 0; newVal.Lsh(newVal, 1) {
+						}
+						if newVal.BitLen() > 64 {
+							return nil, parseError(k, "the value of flag '%s' does not fit in 64 bits and must be explicitly specified", k.Value)
 						}
 						val.IntegerValue = *newVal
 					}
